@@ -577,19 +577,29 @@ def payload_verbatim(F, R, rule='B.C07.payload', fn_filter=None, floor=60):
     thread will have by the time it applies the command."""
     from ..paths import parse_term
     n = 0
+    # a fieldless variant spelled out (`StartTime::Immediate`) is a constant
+    units = set()
+    for ap, a in F.adts.items():
+        if a.get('kind') == 'Enum':
+            units |= {'%s::%s' % (ap, v['name']) for v in a['variants'] if not v['fields']}
+    from ..rules import feasible_paths
 
     def ok_term(d, params):
         nm, args = parse_term(d)
         if args is None:
-            return d in params or d in ('True', 'False', 'tuple()', '()') or d.startswith(('const ', 'promoted['))
+            return d in params or d in ('True', 'False', 'tuple()', '()') or d.startswith(('const ', 'promoted[')) or d in units
         return nm in PAYLOAD_CTORS and all(ok_term(a, params) for a in args)
     for b in F.bodies:
         if b.krate != 'kira' or 'andle' not in b.path or (fn_filter is not None and not fn_filter(b.path)):
             continue
         params = [nm for l, nm in b.names.items() if 1 <= l <= b.arg_count]
+        ps = feasible_paths(b)
+        live = None if ps is None else set().union(*[set(x) for x in ps]) if ps else set()
         for bb, t in b.calls():
             if (callee_path(t) or '') != 'command::CommandWriter::<T>::write':
                 continue
+            if live is not None and bb not in live:
+                continue    # the arm of a spliced-in helper's `match` for a command this method does not build
             n += 1
             d = describe(b, t['args'][1], depth=8, at=bb)
             R.check(ok_term(d, params), rule, 'verbatim:' + b.path.split('::{closure')[0], '%s writes %s: not its own arguments handed on as they are' % (b.path, d[:140]),
